@@ -304,7 +304,8 @@ class Emulsion(list):
             :class:`~numpy.ndarray`: The array containing all droplet data. If entries in
                 this array are modified, it will be reflected in the droplets.
         """
-        data = self.data  # create an array with all the droplet data
+        # create a record array with all the droplet data (so rows support attributes)
+        data = self.data.view(np.recarray)
         # link back to droplets
         for i, d in enumerate(self):
             d.data = data[i]
